@@ -91,6 +91,19 @@ class Ledger:
             s = U.Site(b, bb, t)
             if s.cls == 'handover':
                 return (+1, 'count received through the hand-over envelope')
+        # the container given away by value (`self.into_inner()` from a new by-value method): its count goes with it
+        if b.arg_count >= 1 and b.local_ty(1).startswith('ArcSwapAny<') and c.get('krate') == 'arc_swap':
+            for a in t['args']:
+                if a['k'] == 'move' and not a['place']['proj']:
+                    src = a['place']['local']
+                    for _ in range(3):
+                        if src == 1:
+                            return (-1, 'the container (with its count) moves into %s' % nm)
+                        ds = [x for x in b.assigns().get(src, ()) if not x[4]]
+                        if len(ds) == 1 and ds[0][2] == 'stmt' and ds[0][3]['k'] == 'use' and ds[0][3]['op'].get('k') == 'move' and not ds[0][3]['op']['place']['proj']:
+                            src = ds[0][3]['op']['place']['local']
+                        else:
+                            break
         return None
 
     def _prepare(self):
@@ -111,9 +124,58 @@ class Ledger:
 
     def _edge_events(self, bb, succ):
         """[(key, weight, note, flag)] — each key is applied at most once per path"""
+        return self._events_from_facts(U.edge_facts(self.b, bb, succ))
+
+    def path_events(self, bb, succ, path):
+        """A boolean that is assigned in several places (`let owned = match .. { None => true, Some(d) => !d.pay() }`) tells
+        nothing on the edge alone; along one *path* the assignment that was executed last is known. Returns 'infeasible'
+        when that assignment is a constant contradicting the edge, else the events of the facts it implies."""
+        b = self.b
+        t = b.term(bb)
+        if t['k'] != 'switch' or t.get('discr_ty') != 'bool':
+            return []
+        op = t['discr']
+        if op['k'] not in ('copy', 'move') or op['place']['proj']:
+            return []
+        v = U.switch_edge_value(b, bb, succ)
+        vals = [x for x, _ in t['targets']]
+        if v == 'otherwise':
+            truth = True if vals == [0] else False if vals == [1] else None
+        else:
+            truth = False if v == [0] else True if v == [1] else None
+        if truth is None:
+            return []
+        local = op['place']['local']
+        for hop in range(4):
+            defs = [x for x in b.assigns().get(local, []) if not x[4]]
+            if len(defs) < 2:
+                if len(defs) == 1 and defs[0][2] == 'stmt' and defs[0][3]['k'] == 'use' and defs[0][3]['op']['k'] in ('copy', 'move') and not defs[0][3]['op']['place']['proj']:
+                    local = defs[0][3]['op']['place']['local']
+                    continue
+                return []
+            by_bb = {}
+            for d in defs:
+                by_bb.setdefault(d[0], []).append(d)
+            for pb in reversed(path):
+                if pb in by_bb:
+                    d = by_bb[pb][-1]
+                    if d[2] != 'stmt':
+                        return []
+                    rv = d[3]
+                    if rv['k'] == 'use' and rv['op']['k'] == 'const' and 'int' in rv['op']['c']:
+                        return 'infeasible' if bool(rv['op']['c']['int']) != truth else []
+                    if rv['k'] == 'use':
+                        return self._events_from_facts(U.bool_facts(b, rv['op'], truth))
+                    if rv['k'] == 'unop' and rv['op'] == 'Not':
+                        return self._events_from_facts(U.bool_facts(b, rv['arg'], not truth))
+                    return []
+            return []
+        return []
+
+    def _events_from_facts(self, facts):
         b = self.b
         out = []
-        for f in U.edge_facts(b, bb, succ):
+        for f in facts:
             if f[0] == 'bool' and f[1] and f[1][0] == 'call':
                 t = f[1][2]
                 cbb = f[1][1]
@@ -152,6 +214,8 @@ class Ledger:
                         ff = [x for x in fl if x['k'] == 'field']
                         if ff and ff[-1]['adt'] == PROT and ff[-1]['name'] == 'debt' and r == ('arg', 1) and idx == 0:
                             out.append((('entry', o[1]), +1, 'self owns its count (debt is None): entry credit', None))
+                        elif ff and ff[-1]['adt'] == PROT and ff[-1]['name'] == 'debt' and r == ('arg', 1) and idx == 1:
+                            out.append((('took', o[1]), 0, 'the debt was taken out of self (self.debt is None from here on)', None))
                     elif nm in ('confirm_helping', 'confirm') and ct['callee'].get('krate') == 'arc_swap' and idx == 1:
                         out.append((('handover_in', o[1]), +1, 'Err(replacement): a count handed over by a helper', None))
         return out
@@ -278,6 +342,7 @@ def analyse(fx, b, col, rule='LEDGER', unwind_rule='LEDGER-UNWIND', declared_exi
     unwind_viol = {}
     inc_viol = []
     e0 = lg.entry()
+    mut_self_prot = b.arg_count >= 1 and b.local_ty(1).startswith('&mut strategy::hybrid::HybridProtection<') and b.name != 'drop'
     start = (0, e0[0], False)
     # DFS over acyclic normal paths
     stack = [(0, e0[0], False, {0: e0[0]}, (0,), frozenset())]
@@ -304,6 +369,9 @@ def analyse(fx, b, col, rule='LEDGER', unwind_rule='LEDGER-UNWIND', declared_exi
             exp = 0
             if declared_exit is not None:
                 exp = declared_exit(b, path)
+            elif mut_self_prot and any(key[0] == 'entry' or key[0] == 'took' for key in applied):
+                # a `&mut self` method that took the debt leaves a protection that owns its count (debt = None): +1 stays in self
+                exp = 1
             else:
                 # a function that passes a received hand-over on to its caller inside Err(..)
                 for key in applied:
@@ -368,7 +436,7 @@ def analyse(fx, b, col, rule='LEDGER', unwind_rule='LEDGER-UNWIND', declared_exi
                 u = t.get('unwind')
                 # effect of the unwinding operation itself: a release completes before the panic propagates
                 ub = bal
-                if k == 'call' and cw and cw[0] is not None and (_refcnt(t, 'dec') or U.callee_name(t) == 'drop'):
+                if k == 'call' and cw and cw[0] is not None and (_refcnt(t, 'dec') or U.callee_name(t) == 'drop' or cw[1].startswith('the container (with its count) moves')):
                     ub = bal + cw[0]
                 if k == 'drop':
                     dw = lg.drop_weight(bb, t, False)
@@ -402,7 +470,8 @@ def analyse(fx, b, col, rule='LEDGER', unwind_rule='LEDGER-UNWIND', declared_exi
                             x = tt['target']
                         else:
                             break
-                if u != 'unreachable' and u != 'terminate' and ub != 0:
+                uexp = 1 if (mut_self_prot and any(key[0] in ('entry', 'took') for key in applied)) else 0
+                if u != 'unreachable' and u != 'terminate' and ub != uexp:
                     key = (bb, kind.split(':')[0])
                     if key not in unwind_viol:
                         unwind_viol[key] = (b.loc(bb), kind, ub, path, t)
@@ -411,7 +480,12 @@ def analyse(fx, b, col, rule='LEDGER', unwind_rule='LEDGER-UNWIND', declared_exi
             nb = after
             npaid = paid
             napplied = applied
-            for (key, w, note, flag) in lg._edge.get((bb, succ), ()):
+            evs = lg._edge.get((bb, succ), ())
+            if not evs and k == 'switch':
+                evs = lg.path_events(bb, succ, path)
+                if evs == 'infeasible':
+                    continue
+            for (key, w, note, flag) in evs:
                 if key in napplied:
                     continue
                 napplied = napplied | {key}
